@@ -67,6 +67,10 @@ class FreqShiftMonitor:
         mo = monitors.meta_of(out)
         for k in ("rate", "fc", "bw", "align", "pol", "meta", "dtype", "shape", "dask"):
             if k in m and m[k] != mo.get(k):
+                if k == "bw" and m["bw"] != m["rate"] and mo.get("bw") == mo.get("rate"):
+                    # the input had its sample_rate reassigned on its own; every baseband *result* is created with chan_bw = sample_rate
+                    ctx.count("input_with_rate_setter_only")
+                    continue
                 ctx.violation(o, f"freq_shift changed {k}: {m[k]!r} -> {mo.get(k)!r}", None, dict(feats, what="meta_" + k))
         if not monitors.same_time(mo["start"], m["start"], 0):
             ctx.violation(o, "freq_shift changed start_time", None, dict(feats, what="start"))
@@ -210,11 +214,18 @@ def wl_shift(ctx, idx, rng):
     rate = gen.rand_rate(rng, lo=0, hi=8.5)
     sig, desc = gen.make_signal(rng, clsname, N, data=x, rate=rate, dask=use_dask, mem="readonly" if gen._side_rng(rng).random() < 0.1 else "rand")
     a = make_shift_bins(rng, N, sshape, vk, sk)
+    if np.ndim(a) >= 2 and rng.random() < 0.35:
+        a = np.asfortranarray(a)            # e.g. a (pol, chan) table passed transposed: same values, column-major memory
     df = (a / N) * sig.sample_rate
     df = df.to(gen.pick(rng, [u.Hz, u.kHz, u.MHz, 1 / u.s, u.mHz]))
     desc.update(N=N, bins=(np.asarray(a).tolist() if np.size(a) < 9 else str(np.shape(a))), value_kind=vk, shape_kind=sk)
     ctx.describe_case(desc)
     ctx.sample(desc)
+    if clsname == "BasebandSignal" and not use_dask and gen._side_rng(rng).random() < 0.1:
+        # the public sample_rate setter alone (chan_bw keeps the old value): the shift in Hz is relative to the *sample rate*
+        with probes.quiet():
+            sig.sample_rate = sig.sample_rate * float(gen.pick(rng, [2.0, 0.5, 1.25]))
+        ctx.count("history[sample_rate_setter_only]")
     before = ctx.counters["freq_shift_events"]
     small_chunks = use_dask and N >= 1024 and rng.random() < 0.5
     if small_chunks:
